@@ -4,7 +4,7 @@
    [runs p tr o] = p can produce trace tr when every external call may return ANY
    response (failing, timing out, lying); a crash is a prefix of such a trace. *)
 From Coq Require Import ZArith NArith Bool List.
-From Mysync Require Import Gtid.Interval Gtid.GtidSet Base.Prog Base.Config Procs.NodeOps Procs.Lost Proofs.LostProofs.
+From Mysync Require Import Gtid.Interval Gtid.GtidSet Base.Prog Base.Config Procs.NodeOps Procs.Lost Proofs.LostProofs Env.World Proofs.LostWorld.
 Import ListNotations.
 Open Scope Z_scope.
 
@@ -53,3 +53,13 @@ Theorem C08_fence_issues_read_only_first : forall local is_master la tr o,
   exists e tr', tr = e :: tr' /\ ev_call e = Sql local (SSetRO true).
 Proof. exact lost_act_fence_starts_with_read_only. Qed.
 Print Assumptions C08_fence_issues_read_only_first.
+
+(* ... and where it leads: executed against the fault-free server of the world model (Env/World.v, tied to the fake
+   server by the K4 correspondence) a fence decision leaves the local node read-only with super_read_only set, from ANY
+   flags, master or replica; the handler stays in the Lost state and keeps its loss clock *)
+Theorem C08_fence_decision_makes_the_node_read_only : forall local is_master la w, w_host w = local ->
+  wout (wrun (lost_act local is_master (LdFence la)) w) = Done (StLost, la) /\
+  s_ro (w_srv (wworld (wrun (lost_act local is_master (LdFence la)) w))) = true /\
+  s_sro (w_srv (wworld (wrun (lost_act local is_master (LdFence la)) w))) = true.
+Proof. exact fence_leaves_read_only. Qed.
+Print Assumptions C08_fence_decision_makes_the_node_read_only.
